@@ -31,9 +31,11 @@ Theorem C18_removed_is_absent : forall m h, lookup (del m h) h = None.
 Proof. exact lookup_del. Qed.
 Theorem C18_remove_is_local : forall m h h', h' <> h -> lookup (del m h) h' = lookup m h'.
 Proof. exact lookup_del_other. Qed.
-(* the shape of the code the machine's atomic steps stand for, regenerated from the source on every run *)
+(* the shape of the code the machine's atomic steps stand for, regenerated from the source on every run; a call with a
+   LIST of handles resolves it entry by entry with the single-handle load, i.e. is a run of Load operations *)
 Theorem C18_store_pins : gen_store_counter_fetch_add_seqcst = true /\ gen_store_create_next_then_locked_insert = true
-  /\ gen_store_load_locked_get_cloned = true /\ gen_store_remove_locked_remove = true /\ gen_store_single_lock = true.
+  /\ gen_store_load_locked_get_cloned = true /\ gen_store_remove_locked_remove = true /\ gen_store_single_lock = true
+  /\ gen_store_list_load_entrywise = true.
 Proof. exact store_pins. Qed.
 
 Print Assumptions C18_linearizable.
